@@ -190,6 +190,11 @@ def check_c06(prog, rep, tier, cfg):
     original_ws_only_for_ignored(prog, rep, "C06.e")
     line_type_does_not_leak(prog, rep, "C06.f")
     children_of_voided_lines_are_laid_out(prog, rep, "C06.g")
+    # C06.h — a line is taken out of the layout passes only if ALL of its tokens are ignored (shared with C07.e): otherwise tokens
+    # outside any verbatim region keep the input's line breaks
+    import text as _text
+    from engine import AliasReport as _Alias
+    _text.check_c07(prog, _Alias(rep, [("C07.e", r".", "C06.h")]), tier, cfg)
     # ---------------------------------------------------------------- C06.d where the spacing rule looks at a gap that is still as in the input, a line break counts as separation
     R = "C06.d"
     n = 0
@@ -1551,6 +1556,36 @@ def check_c11(prog, rep, tier, cfg):
             # value copied into a struct / passed on
             rep.fail(R, "use:%s:escapes" % short(b.npath), "max_line_length is read in %s but not used in a comparison (value escapes)" % short(b.npath), where="%s:%d" % (b.file, abs(s.get("line", 0))))
     rep.floor(R, "arithmetic/comparison uses of max_line_length", n, 3)
+    # ---------------------------------------------------------------- C11.f the price of a column beyond the limit dominates every other price
+    R = "C11.f"
+    gp = prog.inlined(OLF + "InternalOptimisingLineFormatter::get_decision_penalty")
+    if rep.check(gp is not None, R, "anchor:get_decision_penalty", "get_decision_penalty not found"):
+        pows = [c for c in gp.calls() if (c.callee or "").endswith("::pow")]
+        # the over-limit price: the power of two that is added to a term computed from max_line_length (the excess), however the excess is
+        # obtained (`len - max` under `len > max`, `len.checked_sub(max)`, in this function or in a helper spliced in)
+        over_blocks = set()
+        for bb, i, s2 in gp.stmts():
+            if s2["k"] == "assign" and s2["rv"]["k"] == "binop" and s2["rv"]["op"].startswith("Add"):
+                ca, cb_ = canon(gp, s2["rv"]["a"]), canon(gp, s2["rv"]["b"])
+                for x, y in ((ca, cb_), (cb_, ca)):
+                    if "pow(" in x and "max_line_length" in y:
+                        for c in pows:
+                            if canon(gp, {"k": "copy", "place": c.t["dst"]}) in x:
+                                over_blocks.add(c.bb)
+        rows = []
+        for c in pows:
+            base, ex = c.args[0], c.args[1]
+            cb = base.get("int") if base["k"] == "const" else None
+            ce = ex.get("int") if ex["k"] == "const" else None
+            rows.append((cb, ce, c.bb in over_blocks, c))
+        nonconst = [r for r in rows if r[0] is None or r[1] is None]
+        overs = [r for r in rows if r[2] and r[1] is not None]
+        others = [r for r in rows if not r[2] and r[1] is not None]
+        ok = not nonconst and len(overs) >= 1 and all(r[0] == 2 for r in rows) and bool(others) and min(r[1] for r in overs) > max(r[1] for r in others)
+        rep.check(ok, R, "over-limit-price-dominates", "in get_decision_penalty the price of exceeding max_line_length (2^%s) does not dominate every other price (exponents %s%s): a layout that sticks out can then be "
+                  "cheaper than one that fits, and which one wins depends on the width" % ([r[1] for r in overs], sorted(r[1] for r in others), "; non-constant: %d" % len(nonconst) if nonconst else ""),
+                  where="%s:%d" % (gp.file, gp.line), instance={"over_limit_exponent": [r[1] for r in overs], "other_exponents": sorted(r[1] for r in others), "non_constant_prices": len(nonconst)})
+        rep.floor(R, "power-of-two prices in get_decision_penalty", len(rows), 4)
     # ---------------------------------------------------------------- C11.d memoised measurements do not outlive the text they were taken from
     R = "C11.d"
     of = prog.body(OLF_FMT)
